@@ -532,9 +532,9 @@ func RunCheck(cs *CheckSpec) int {
 			}
 			min.Note = fmt.Sprintf("found by seed %d in batch %q; %d runs of the batch ended in this signature; minimised %d -> %d script entries in %d replays",
 				va.first.Seed, b.Label, va.count, nBefore, e.Units(min), tries)
-			os.MkdirAll(filepath.Join(cs.VerifDir, "replays"), 0o755)
+			os.MkdirAll(filepath.Join(outDir(cs), "replays"), 0o755)
 			name := fmt.Sprintf("%s-%d-%08x.json", cs.Property, va.first.Seed, HashString(va.v.Signature)&0xffffffff)
-			path := filepath.Join(cs.VerifDir, "replays", name)
+			path := filepath.Join(outDir(cs), "replays", name)
 			bb, _ := json.MarshalIndent(min, "", " ")
 			os.WriteFile(path, bb, 0o644)
 			fmt.Printf("  violation signature=%s detail=%s\n", va.v.Signature, va.v.Detail)
@@ -572,9 +572,9 @@ func RunCheck(cs *CheckSpec) int {
 		"property_id": cs.Property, "tier": cs.Tier, "seed": cs.Seed, "level": cs.Level,
 		"coverage": cov, "assumptions": cs.Assumptions, "wall_s": round2(wall), "violations": nviol,
 	}
-	os.MkdirAll(filepath.Join(cs.VerifDir, "evidence"), 0o755)
+	os.MkdirAll(filepath.Join(outDir(cs), "evidence"), 0o755)
 	eb, _ := json.MarshalIndent(ev, "", " ")
-	if err := os.WriteFile(filepath.Join(cs.VerifDir, "evidence", cs.Property+".json"), eb, 0o644); err != nil {
+	if err := os.WriteFile(filepath.Join(outDir(cs), "evidence", cs.Property+".json"), eb, 0o644); err != nil {
 		fmt.Fprintf(os.Stderr, "HARNESS: cannot write evidence: %v\n", err)
 		return 2
 	}
@@ -590,6 +590,15 @@ func RunCheck(cs *CheckSpec) int {
 	}
 	fmt.Printf("done property=%s runs=%d distinct=%d violations=%d wall=%.1fs\n", cs.Property, total.runs, len(total.states), nviol, wall)
 	return exit
+}
+
+// outDir: where evidence and replay files go (VERIF_OUT_DIR redirects them for runs against
+// seeded copies of the repository, so that they never overwrite the real evidence).
+func outDir(cs *CheckSpec) string {
+	if d := os.Getenv("VERIF_OUT_DIR"); d != "" {
+		return d
+	}
+	return cs.VerifDir
 }
 
 func round2(x float64) float64 { return float64(int64(x*100)) / 100 }
